@@ -117,6 +117,24 @@ func runOne(t *testing.T, sc *Scenario, seed uint64, variant, tier string, rep *
 			uuid.SetRand(nil)
 			c.Sim = sim
 			aborted := sim.Err != nil
+			if len(sim.ThreadPanics) > 0 {
+				detail := sim.ThreadPanics[0]
+				if len(detail) > 1500 {
+					detail = detail[:1500]
+				}
+				if sc.PanicClass != "" {
+					comp := c.Comp
+					if comp == "" {
+						comp = "goroutine"
+					}
+					if c.Viol == nil {
+						c.Fail(sc.PanicClass, comp, "a goroutine of the system under test panicked (it would crash the process): %s", detail)
+					}
+				} else if res.Harness == "" {
+					res.Harness = "unrecovered panic in a controlled goroutine: " + detail
+				}
+				aborted = true
+			}
 			if sim.Stuck || sim.StepCap {
 				if c.Viol == nil {
 					if sc.StuckClass != "" {
